@@ -274,8 +274,28 @@ def fields(ans):
 
 
 def build_model():
-    return C.build_mlref('taut', 'Extract/ExtractTaut.v', 'taut_model', 'taut_driver.ml', 'mlref_taut',
-                         ['Taut/Model.vo'])
+    """like common.build_mlref, but links the `unix` library (the driver uses alarm() for per-case
+    timeouts, because the modelled to_cnf is exponential exactly like the implementation)"""
+    ok, log = C.coq_make(['Taut/Model.vo'])
+    if not ok:
+        return False, log[-4000:], None
+    gen = os.path.join(C.OCAML, 'gen')
+    os.makedirs(gen, exist_ok=True)
+    with C.BuildLock():
+        srcs = [os.path.join(C.COQ, 'Extract/ExtractTaut.v'), os.path.join(C.COQ, 'Taut/Model.v'),
+                os.path.join(C.OCAML, 'taut_driver.ml')]
+        exe = os.path.join(C.OCAML, 'mlref_taut')
+        stamp = max(os.path.getmtime(s) for s in srcs)
+        if os.path.exists(exe) and os.path.getmtime(exe) >= stamp:
+            return True, 'up to date', exe
+        rc, o, e = C.sh(f'timeout 300 coqc -Q {C.COQ} Pi2 -w -all {srcs[0]}', cwd=gen, timeout=330)
+        if rc != 0:
+            return False, (o + e)[-4000:], None
+        rc, o, e = C.sh('ocamlfind ocamlopt -O3 -w -a -package unix -linkpkg -I gen gen/taut_model.mli gen/taut_model.ml '
+                        'taut_driver.ml -o mlref_taut', cwd=C.OCAML, timeout=300)
+        if rc != 0:
+            return False, (o + e)[-4000:], None
+        return True, 'built', exe
 
 
 def setup():
@@ -437,7 +457,7 @@ def run(tier, seed):
             impl = f_impl.result()
             model = f_model.result()
         for (line, kind), m, i in zip(cases, model, impl):
-            if i is not None and i.startswith('TIMEOUT'):
+            if (i is not None and i.startswith('TIMEOUT')) or (m is not None and m.startswith('TIMEOUT')):
                 timeouts += 1
                 R.case(line, False, kind + ':timeout')
                 continue
